@@ -38,7 +38,7 @@ Section GlobalLog.
                   (msg_adm_ev_adm c honest members_nodup g a e Hadm)) as S.
     pose proof (step_log c a honest members_nodup Ha (gw g) byz_bound hint e (g a) (HG a Ha)
                   (W_of_GInv g a HG Ha) (HLg a Ha) (msg_adm_ev_adm c honest members_nodup g a e Hadm)) as SL.
-    destruct (step c a true hint e (g a)) as [[s' o] r]. unfold st in SL. simpl in *.
+    destruct (step c a src_dq hint e (g a)) as [[s' o] r]. unfold st in SL. simpl in *.
     destruct S as [_ [[pre Hp] _]].
     intros b Hb. unfold gupd at 2. destruct (N.eqb_spec b a) as [->|Hne].
     - eapply LogInv_mono; [|exact SL]. intros x Hx e0 He. unfold gw, gupd.
